@@ -10,3 +10,5 @@ for p in "$@"; do
   echo "SEEDTEST seed=$seed check=$p rc=$rc violation_lines=$v :: $(echo "$out" | grep '^#' | head -1 | cut -c1-220)"
 done
 git -C /repo checkout -- .
+# the evidence files written while the seed was applied describe the mutant, not the tree: restore them
+git -C /verif checkout -- evidence 2>/dev/null
